@@ -22,6 +22,10 @@ type c08Step struct {
 	// what the handler does if it is invoked for this packet
 	Reply bool `json:"reply"`
 	Cont  bool `json:"cont"` // register a continuation
+	// Status: 0 = the reply is six zero octets; otherwise the reply is built with the library's reply type
+	// for the packet type and carries this status (GETDATA/GETUSER/GETPASS with a continuation, final
+	// statuses without one)
+	Status byte `json:"status,omitempty"`
 }
 
 type c08Case struct {
@@ -78,6 +82,18 @@ func genC08(t *rapid.T) c08Case {
 			Type:    rapid.SampledFrom([]byte{1, 2, 3}).Draw(t, "type"),
 			Reply:   rapid.IntRange(0, 9).Draw(t, "reply") != 0,
 			Cont:    rapid.IntRange(0, 3).Draw(t, "cont") != 0,
+		}
+		switch {
+		case s.Cont && s.Type == 1:
+			s.Status = rapid.SampledFrom([]byte{0, 3, 4, 5}).Draw(t, "status")
+		case s.Cont && s.Type == 3:
+			s.Status = rapid.SampledFrom([]byte{0, 1}).Draw(t, "status")
+		case !s.Cont && s.Type == 1:
+			s.Status = rapid.SampledFrom([]byte{0, 1, 2, 7}).Draw(t, "status")
+		case !s.Cont && s.Type == 2:
+			s.Status = rapid.SampledFrom([]byte{0, 1, 2, 0x10, 0x11}).Draw(t, "status")
+		case !s.Cont && s.Type == 3:
+			s.Status = rapid.SampledFrom([]byte{0, 1, 2}).Draw(t, "status")
 		}
 		last := 0
 		if st, ok := m.sess[s.Session]; ok {
@@ -143,7 +159,18 @@ func (h *c08Harness) handler(tag string) tq.Handler {
 			resp.Next(next)
 		}
 		if s.Reply {
-			_, _ = resp.Reply(rawED{[]byte{0, 0, 0, 0, 0, 0}})
+			var reply tq.EncoderDecoder = rawED{[]byte{0, 0, 0, 0, 0, 0}}
+			if s.Status != 0 {
+				switch s.Type {
+				case 1:
+					reply = tq.NewAuthenReply(tq.SetAuthenReplyStatus(tq.AuthenStatus(s.Status)), tq.SetAuthenReplyServerMsg("m"))
+				case 2:
+					reply = tq.NewAuthorReply(tq.SetAuthorReplyStatus(tq.AuthorStatus(s.Status)), tq.SetAuthorReplyServerMsg("m"))
+				default:
+					reply = tq.NewAcctReply(tq.SetAcctReplyStatus(tq.AcctReplyStatus(s.Status)), tq.SetAcctReplyServerMsg("m"))
+				}
+			}
+			_, _ = resp.Reply(reply) // at sequence number 255 there is no number left for a reply
 		}
 	})
 }
